@@ -74,7 +74,7 @@ def _isspace(s):
 
 UNUSUAL_TEXTS = [
     '', ' ', '\n', '\r', '\r\n', '\t', ' \n ', ';', ';;', ' ; ', ';\n;', "'", "''", "'''", '"', '""', '`', '``', '´',
-    '/*', '/**/', '/* ; ', '*/', '--', '-- ;', '--\n', '#', '# c', '(', ')', '((', '))', ')(', '(;', ';)', '[', ']', '[;]',
+    '/*', '/**/', '/* ; ', '*/', '--', '-- ;', '--\n', '#', '# c', '# ', 'select 1; # ', 'select 1 # \t', 'select 1; -- ', 'x #\n', '(', ')', '((', '))', ')(', '(;', ';)', '[', ']', '[;]',
     '$$', '$$;', '$$ ; $$', '$a$ ; $a$', '$a$ ; $b$', '$', '$1', 'é', 'É;é', '業', '業者 ; 業', '\x00', '\x00;\x00',
     '\ud800', "'\ud800", '\x1f', '\x0c', '\xa0', 'select', 'select 1', 'select 1;', 'select 1; ', 'select 1;\n\n',
     'select 1;select 2', 'select 1 ;; select 2', "select 'a;b'; select 2", "select 'unclosed ; select 2",
@@ -626,7 +626,9 @@ def smoke_C03():
 RULE_C04 = ('C04: same text domain as C02 (different seeds).  Non-trivial = split() returns at least one piece.  Oracle: '
             'split(text) == [str(s).strip() for s in parse(text)]; every piece non-empty; scanning the text left to right, '
             'skipping whitespace, each piece is found exactly at the next non-blank position and only whitespace remains '
-            'after the last one; split(piece) == [piece] for every piece.')
+            'after the last one; split(piece) == [piece] for every piece.  Every 40th multi-statement text is checked again '
+            'after three disturbing histories on the same text (abandoned partially consumed parsestream(), partially '
+            'consumed token stream, a call on another text).')
 
 
 def _locate(text, pieces):
@@ -650,6 +652,25 @@ def _locate(text, pieces):
 def oracle_C04(case):
     sqlparse = _lib()[0]
     text = case
+    keep = []
+    if isinstance(case, tuple) and case and case[0] == 'history':
+        # the same checks after a disturbing history on the same text: an abandoned, partially consumed parsestream(), a
+        # partially consumed token stream, a call on another text (objects kept alive while the checks run)
+        _h, kind, text = case
+        try:
+            if kind == 'partial-parsestream':
+                g = sqlparse.parsestream(text)
+                keep.append(g)
+                next(g, None)
+            elif kind == 'partial-tokens':
+                g = _lib()[3].tokenize(text)
+                keep.append(g)
+                next(g, None)
+                next(g, None)
+            elif kind == 'other-text':
+                sqlparse.split('select 0; select ' + text[:7])
+        except Exception:   # noqa: BLE001  (the disturbing call itself is not under test here)
+            pass
     try:
         pieces = sqlparse.split(text)
     except Exception as e:   # noqa: BLE001
@@ -682,7 +703,16 @@ def oracle_C04(case):
 
 
 def cases_C04(tier, seed):
-    return _soup_texts(tier, seed, 4)
+    n = 0
+    for t in _soup_texts(tier, seed, 4):
+        yield t
+        n += 1
+        if n % 40 == 0 and isinstance(t, str) and ';' in t:
+            for kind in ('partial-parsestream', 'partial-tokens', 'other-text'):
+                yield ('history', kind, t)
+    for t in smoke_C04():
+        for kind in ('partial-parsestream', 'partial-tokens', 'other-text'):
+            yield ('history', kind, t + '; select 2; select 3')
 
 
 def classify_C04(case, failure):
